@@ -11,7 +11,7 @@ from jv.props import common as C
 
 ID = "C14"
 LEVEL = "exploration"
-BUDGET = {"quick": 2400, "thorough": 40000}
+BUDGET = {"quick": 4000, "thorough": 48000}
 RULE = (
     "case = generated scenario (biased to leave jobs unsubmitted: max_nodes 1-2, small batches, dependencies) x "
     "schedule x the user's cancel-jobs (--complete or --no-complete) fired a generated number of world steps (0-120) "
